@@ -10,6 +10,7 @@ import (
 	"net"
 	"strconv"
 	"strings"
+	"sync"
 	"time"
 
 	"github.com/segmentio/kafka-go"
@@ -42,6 +43,8 @@ type KafkaStorage struct {
 	brokerEndpoint, consumerGroup, topic string
 	timeout                              time.Duration
 
+	// the ignore lists are written by a state reset (local API) while the poller reads them
+	ignoreMu         sync.RWMutex
 	idIgnoreList     map[string]struct{}
 	offsetIgnoreList map[uint64]struct{}
 }
@@ -163,8 +166,10 @@ func (ks *KafkaStorage) GetMessages(_ uint64) ([]storage.Message, error) {
 
 		message.Offset = uint64(kafkaMessage.Offset)
 
+		ks.ignoreMu.RLock()
 		_, idOk := ks.idIgnoreList[message.ID]
 		_, offsetOk := ks.offsetIgnoreList[message.Offset]
+		ks.ignoreMu.RUnlock()
 		if !idOk && !offsetOk {
 			messages = append(messages, message)
 		}
@@ -174,6 +179,8 @@ func (ks *KafkaStorage) GetMessages(_ uint64) ([]storage.Message, error) {
 }
 
 func (ks *KafkaStorage) IgnoreMessages(messages []string, useOffset bool) error {
+	ks.ignoreMu.Lock()
+	defer ks.ignoreMu.Unlock()
 	for _, msg := range messages {
 		if useOffset {
 			offset, err := strconv.ParseUint(msg, 10, 64)
@@ -192,6 +199,8 @@ func (ks *KafkaStorage) IgnoreMessages(messages []string, useOffset bool) error 
 }
 
 func (ks *KafkaStorage) UnignoreMessages() {
+	ks.ignoreMu.Lock()
+	defer ks.ignoreMu.Unlock()
 	ks.idIgnoreList = map[string]struct{}{}
 	ks.offsetIgnoreList = map[uint64]struct{}{}
 }
